@@ -87,6 +87,44 @@ Definition sx_span (s : span) : sx :=
 
 Definition sx_set (s : set) : sx := SL [SI (sys_index (set_sys s)); SL (map sx_span (set_span s))].
 
+(* decoding of the dumps (inverse of sx_span / sx_set) *)
+Definition decode_optv (d : sx) : option (option version) :=
+  match d with
+  | SL [] => Some None
+  | _ => match decode_version d with Some v => Some (Some v) | None => None end
+  end.
+
+Definition decode_span (d : sx) : option span :=
+  match d with
+  | SL [SI r; SI mo; SI xo; mn; mx] =>
+      match decode_optv mn, decode_optv mx with
+      | Some a, Some b' =>
+          let rk := if r =? 0 then Some REmpty else if r =? 1 then Some RUnit else if r =? 2 then Some RVector else None in
+          match rk with
+          | Some k => Some {| sp_rank := k; sp_min_open := negb (mo =? 0); sp_max_open := negb (xo =? 0); sp_min := a; sp_max := b' |}
+          | None => None
+          end
+      | _, _ => None
+      end
+  | _ => None
+  end.
+
+Fixpoint decode_spans (l : list sx) : option (list span) :=
+  match l with
+  | [] => Some []
+  | d :: t => match decode_span d, decode_spans t with Some s, Some r => Some (s :: r) | _, _ => None end
+  end.
+
+Definition decode_set (d : sx) : option set :=
+  match d with
+  | SL [SI sysi; SL spans] =>
+      match sys_of_index sysi, decode_spans spans with
+      | Some sys, Some l => Some {| set_sys := sys; set_span := l |}
+      | _, _ => None
+      end
+  | _ => None
+  end.
+
 (* outcome of a whole case *)
 Definition sx_out (r : res sx) : sx :=
   match r with
@@ -271,6 +309,48 @@ Fixpoint disj_events (tbl : table) (sys : system) (alts : list sx) : res (list s
   | _ :: _ => Panic PExplicit
   end.
 
+Definition k_setop_d : bytes := [115;101;116;111;112;95;100]%N.
+Definition k_setrt_d : bytes := [115;101;116;114;116;95;100]%N.
+Definition k_setdiag_d : bytes := [115;101;116;100;105;97;103;95;100]%N.
+
+(* the body of setop once the two sets are known *)
+Definition setop_body (tbl : table) (sys : system) (sa sb : set) (probes : list sx) : res sx :=
+  u <- op_result (set_union sa sb);;
+  i <- op_result (set_intersect sa sb);;
+  u' <- op_result (set_union sb sa);;
+  i' <- op_result (set_intersect sb sa);;
+  ps <- parse_probes tbl sys probes;;
+  rows <- map_res (fun o => match o with
+                            | None => Ok (SL [SB s_verr])
+                            | Some v =>
+                                r <- map_res (fun x => e <- mem x v false;; n <- mem x v true;; Ok [e; n])
+                                             [Some sa; Some sb; u; i; u'; i'];;
+                                Ok (SL (concat r))
+                            end) ps;;
+  ia <- sx_set_info (Some sa);; ib <- sx_set_info (Some sb);;
+  iu <- sx_set_info u;; ii <- sx_set_info i;; iu' <- sx_set_info u';; ii' <- sx_set_info i';;
+  Ok (SL [SB sym_ok; ia; ib; iu; ii; iu'; ii'; SL rows]).
+
+(* the body of setrt once the set is known: only prerelease-inclusive matching is observed *)
+Definition setrt_body (tbl : table) (sys : system) (st : set) (probes : list sx) : res sx :=
+  s1 <- set_string st;;
+  c2 <- (match parse_set_constraint (pv_of tbl) sys s1 with
+         | Ok x => Ok (Some x) | Err _ => Ok None | Panic p => Panic p | OutOfFuel => OutOfFuel end);;
+  r <- (match c2 with
+        | None => Ok (SL [SB sym_err])
+        | Some x => s2 <- set_string (c_set x);; Ok (SL [SB sym_ok; SB s2])
+        end);;
+  ps <- parse_probes tbl sys probes;;
+  rows <- map_res (fun o => match o with
+                            | None => Ok (SL [SB s_verr])
+                            | Some v =>
+                                oi <- (if is_wildcard_v v then Ok false else set_match_version st v true);;
+                                ri <- (match c2 with None => Ok (SI (-1))
+                                                   | Some x => b0 <- match_version_prerelease x v;; Ok (sx_bool b0) end);;
+                                Ok (SL [sx_bool oi; ri])
+                            end) ps;;
+  Ok (SL [SB sym_ok; SB s1; r; SL rows]).
+
 Definition k_setdiag : bytes := [115;101;116;100;105;97;103]%N.
 Definition k_cdiag : bytes := [99;100;105;97;103]%N.
 
@@ -379,6 +459,33 @@ Definition run_Constraint (kind : bytes) (a : sx) : option sx :=
                                                         Ok (SL [sx_bool oi; ri; sx_bool oe; re])
                                                     end) ps;;
                           Ok (SL [SB sym_ok; SB s1; r; SL rows]))
+              | _, _ => badcase
+              end
+          | _ => badcase end)
+  else if bytes_eqb kind k_setop_d then
+    Some (match a with
+          | SL [SI sysi; da; db; SL probes; SL tb] =>
+              match sys_of_index sysi, decode_set da, decode_set db, decode_table tb with
+              | Some sys, Some sa, Some sb, Some tbl => sx_out (setop_body tbl sys sa sb probes)
+              | _, _, _, _ => badcase
+              end
+          | _ => badcase end)
+  else if bytes_eqb kind k_setrt_d then
+    Some (match a with
+          | SL [SI sysi; da; SL probes; SL tb] =>
+              match sys_of_index sysi, decode_set da, decode_table tb with
+              | Some sys, Some st, Some tbl => sx_out (setrt_body tbl sys st probes)
+              | _, _, _ => badcase
+              end
+          | _ => badcase end)
+  else if bytes_eqb kind k_setdiag_d then
+    Some (match a with
+          | SL [da; db] =>
+              match decode_set da, decode_set db with
+              | Some sa, Some sb =>
+                  sx_out (eu <- union_events sa sb;; ei <- inter_events sa sb;;
+                          eu' <- union_events sb sa;; ei' <- inter_events sb sa;;
+                          Ok (SL [SB sym_ok; SL eu; SL ei; SL eu'; SL ei']))
               | _, _ => badcase
               end
           | _ => badcase end)
